@@ -335,7 +335,7 @@ def _plain(v):
 # generators
 # ----------------------------------------------------------------------------------------------
 ALPHABET = [True, 1, 1.0, False, 0, 0.0, -0.0, "1", None, [1], [1.0], [True], {}, {"b": 1}]
-SUBKEYS = ["a", "b", "c", "", "é", "x y"]
+SUBKEYS = ["a", "b", "c", "", "é", "x y", "sp", "disp", "0", "1"]
 FAMILIES = [
     [1, 1.0, True, 2, "1"],
     [0, False, 0.0, -0.0, None],
